@@ -21,10 +21,11 @@ RULE = ("scenarios with 2-3 endpoints (threads), up to 4 sends/receives each: on
         "enough receives or has a callback; an empty non-blocking receive raises instead of blocking or returning a "
         "message; both endpoints rendezvous in every start order."
         ' Plus free-running threads with 66 000 - 300 000 pending messages and a StructuredMessage object refilled and sent again. '
+        ' Further scenarios: two receiving threads of one endpoint on one socket, non-blocking broadcast receives, three broadcast endpoints listing their remotes in cyclic order, an endpoint that gives up connecting (timeout 0) before its peer arrives, zero-length messages, a late starter with timeout 0. '
         "Non-trivial = the schedule contains a preemption inside "
         "a hub/socket method; distinct = distinct (scenario, choice list).")
 ASSUMPTIONS = ["interleavings at statement granularity inside the thread-socket modules; finer (bytecode-level) interleavings are not explored",
-               "each endpoint key connects once per hub reset (residue for a later socket with the same key is not judged)",
+               "unread messages of a closed socket that reach the next socket opened on the same key are not judged (each is still received exactly once); a failed connect attempt, however, must leave nothing behind",
                "timeouts are virtual (20 virtual seconds per blocking operation); a schedule that hits the step bound is inconclusive and counted"]
 SHARDS = {"quick": 4, "thorough": 16}
 MIN_COUNTERS = {"schedules": 1500, "preempted_schedules": 500, "yield_points": 100000}
